@@ -85,6 +85,14 @@ func histories(t *testing.T, shard int) {
 		}
 		rng := c.Rand()
 		capacity := uint64(8 + rng.Intn(13))
+		// every fourth history runs on a coarse clock: up to six successive clock readings
+		// return the same time
+		coarse := int64(1)
+		if i%4 == 3 {
+			coarse = int64(2 + rng.Intn(5))
+			run.Stat("histories_on_a_coarse_clock", 1)
+		}
+		fsim.SetClockGranularity(coarse)
 		faultSeq++
 		fname := fmt.Sprintf("c13-%d-%d", shard, faultSeq)
 		fault := vdb.NewFault(fname, nil)
@@ -307,6 +315,7 @@ func histories(t *testing.T, shard int) {
 			}
 		}
 		w.Close()
+		fsim.SetClockGranularity(1)
 		vdb.DropFault(fname)
 		var ks, ps []string
 		for k := range kinds {
